@@ -394,8 +394,9 @@ def sec_history(ctx, rng, case):
                 check_edit(ctx, h, what, before, positions(c), [i for _, i in ops], [], s_, True, order_inserted=True, qubit_conflicts_only=True)
             elif kind == 8 and L0 > 0:  # batch_insert
                 groups = []
-                for _ in range(int(rng.integers(1, 4))):
-                    groups.append((int(rng.integers(0, L0 + 1)), [h.new_op() for _ in range(int(rng.integers(1, 3)))]))
+                one_each = rng.random() < 0.5
+                for _ in range(int(rng.integers(1, 5))):
+                    groups.append((int(rng.integers(0, L0 + 1)), [h.new_op() for _ in range(1 if one_each else int(rng.integers(1, 3)))]))
                 what = "batch_insert"
                 h.log.append("batch_insert(%s)" % [(i, [x for _, x in g]) for i, g in groups])
                 c.batch_insert([(i, [o for o, _ in g]) for i, g in groups])
@@ -406,13 +407,18 @@ def sec_history(ctx, rng, case):
                 pa = dict((i, mi) for mi, i in after)
                 pb = dict((i, mi) for mi, i in before)
                 ok, why = True, ""
+                # one operation per index, every index once: each is a plain single-operation EARLIEST insert at its
+                # (shifted) index, so it also precedes what was at or after that index on its qubits.  (Several operations at
+                # one index may overtake each other - the EARLIEST multi-operation placement recorded under C12.)
+                single_ops = all(len(g) == 1 for _, g in groups) and len({gi for gi, _ in groups}) == len(groups)
                 for gi, g in groups:
                     for _, x in g:
                         for e in pb:
                             if h.conflict(e, x) and pb[e] < gi and not pa[e] < pa[x]:
                                 ok, why = False, "batch-inserted %d (at %d) is not after existing conflicting %d" % (x, gi, e)
-                            if h.conflict(e, x) and pb[e] >= gi and len(g) == 1 and len(groups) == 1 and not pa[x] < pa[e]:
-                                ok, why = False, "single batch-inserted %d (at %d) is not before existing conflicting %d" % (x, gi, e)
+                            if single_ops and bool(h.info[e][0] & h.info[x][0]) and pb[e] >= gi and not pa[x] < pa[e]:
+                                # (indices refer to the circuit as it was: every group, in whatever order the batch lists them)
+                                ok, why = False, "batch-inserted %d (at %d) is not before existing %d on the same qubit, which was in moment %d" % (x, gi, e, pb[e])
                 ctx.check(ok, "order-inserted", "C05:batch_insert-order", why, history=h.log[-8:])
             elif kind == 9 and L0 > 0:  # batch_insert_into (all-or-nothing)
                 mi = int(rng.integers(0, L0))
